@@ -30,10 +30,11 @@ LEVEL_TEXT = ("Exploration by generated-input search over frames x action lists 
 LEVEL_NOTE = ("trusts the reference model's reading of OpenFlow 1.0.0 section 3.3 / Table 5 and RFC 1071/791/793/768; zones the "
               "specification leaves open are counted (label ambiguous:*), judged only for 'no exception' and for the port guards")
 RULE = ("a case is a script of port-mods, link-down marks and 1..3 deliveries (packet-out / installed flow / table miss) of a built "
-        "frame with an action list of length 0..6; it is non-trivial when some delivery has at least one rewrite before and at "
-        "least one rewrite after an output that really emits, or pushes a VLAN tag on an untagged frame that is then emitted, or "
-        "addresses a port that is blocked (down, link-down, NO_FWD, NO_FLOOD under a flood, NO_RECV/NO_RECV_STP on ingress); "
-        "distinct by SHA-1 of the canonical JSON of the case")
+        "frame with an action list of length 0..6; it is non-trivial when some delivery (a) has a rewrite before its first emitting "
+        "output and another rewrite between that and its last emitting output, or (b) pushes a VLAN tag on an untagged frame before "
+        "an emitting output, or (c) addresses (directly, by IN_PORT, or by FLOOD/ALL) a port that may not transmit (PORT_DOWN, link "
+        "down, NO_FWD, NO_FLOOD under FLOOD), or (d) arrives on a port that is receive-disabled for it or is dropped at a down ingress port, or (e) misses the "
+        "table on a NO_PACKET_IN port; distinct by SHA-1 of the canonical JSON of the case")
 ASSUMPTIONS = [
   "frames carry valid checksums and consistent lengths and no link-layer trailer (the generator builds them with ref/frames.py; the validator re-checks every input frame)",
   "output to the ingress port's own number is dropped; OFPP_IN_PORT is needed to send back (OpenFlow 1.0.0 section 3.3)",
@@ -44,6 +45,8 @@ ASSUMPTIONS = [
   "rx counters may or may not count OFPP_TABLE lookups; tx counters must equal exactly what was emitted",
   "OFPPC_NO_PACKET_IN must suppress table-miss packet-ins; whether it suppresses packet-ins of an explicit output to OFPP_CONTROLLER is left open (all or none accepted)",
   "link-down is set by the harness on the switch's ofp_phy_port.state after all port-mods (POX derives link state from PORT_DOWN only)",
+  "'other' frames are 802.3/LLC, SNAP, well-formed LLDP and EAPOL-Start/Logoff, RARP, and EtherTypes / IP protocols the packet library does not dissect; "
+  "IPv6, IGMP, GRE, MPLS and malformed payloads of dissected protocols are left to C14/C15",
 ]
 EXHAUSTIVE_SCOPE = {
   "quick": "all 64 x 64 combinations of {PORT_DOWN, NO_RECV, NO_RECV_STP, NO_FLOOD, NO_FWD, NO_PACKET_IN} on ingress port 1 and egress port 2 of a 3-port switch (set by port-mod), "
@@ -689,7 +692,7 @@ def _run(case, sw, out, nt):
         res = R.apply(f0, actions, in_port, port_state, from_flow=(mode == "flow"), table=table_lookup, **v)
       if res0 is None:
         res0 = res
-      if res.table_lookups and (not R.accepts(port_state, in_port, f0) or ingress_down or (frag_mode == 1 and is_frag)):
+      if res.table_lookups and ((icfg & (R.OFPPC_NO_RECV | R.OFPPC_NO_RECV_STP)) or ingress_down or (frag_mode == 1 and is_frag)):
         # POX (like the 1.0 reference switch) runs the lookup through its receive path; whether the
         # ingress port's receive restrictions apply to a packet-out is not specified
         res.ambiguous = "OFPP_TABLE lookup with a receive-restricted ingress port"
